@@ -55,24 +55,178 @@ class Contract:
 
 
 # ---------------------------------------------------------------------------- solving
-def solve(goal, pc, extra=(), timeout_ms=None, want_model=None):
-    """returns (verdict, backend, ms, model) ; verdict in discharged / failed / unknown"""
+def _solve_child(goal, pc, extra, timeout_ms, inputs, wfd):
+    """runs in a forked child: z3 with the real definitions; writes a JSON verdict to the pipe"""
+    try:
+        s = z3.Solver()
+        s.set('timeout', timeout_ms)
+        for c in pc:
+            s.add(c)
+        for c in extra:
+            s.add(c)
+        s.add(z3.Not(goal))
+        r = s.check()
+        out = dict(r=str(r))
+        if r == z3.sat and inputs:
+            from .sorts import get_world
+            w = get_world()
+            m = s.model()
+            mi = {}
+            for k, c in inputs.items():
+                try:
+                    mi[k] = w.to_py(m.eval(c, model_completion=True))
+                except Exception as ex:
+                    mi[k] = f'<{ex}>'
+            out['model'] = mi
+        os.write(wfd, json.dumps(out).encode())
+    except BaseException as ex:   # noqa
+        try:
+            os.write(wfd, json.dumps(dict(r='error', err=str(ex))).encode())
+        except Exception:
+            pass
+    finally:
+        os._exit(0)
+
+
+def solve_many(items, inputs=None, timeout_ms=None):
+    """items: [(goal, pc)] -> [(verdict, backend, ms, model)]; the trivially true goals are answered by the simplifier,
+    the others go to one forked child together (one fork per path instead of one per obligation); any that the
+    batch leaves open is retried on its own with the full fallback chain."""
+    import select
+    import signal
+    timeout_ms = timeout_ms or Z3_MS
+    out = [None] * len(items)
+    todo = []
+    for i, (goal, pc) in enumerate(items):
+        if isinstance(goal, bool):
+            goal = z3.BoolVal(goal)
+        if z3.is_true(z3.simplify(goal)):
+            out[i] = ('discharged', 'z3-simplify', 0, None)
+        else:
+            todo.append((i, goal, pc))
+    if len(todo) > 1:
+        t0 = time.time()
+        rfd, wfd = os.pipe()
+        pid = os.fork()
+        if pid == 0:
+            os.close(rfd)
+            try:
+                for i, goal, pc in todo:
+                    t1 = time.time()
+                    s = z3.Solver()
+                    s.set('timeout', timeout_ms)
+                    for c in pc:
+                        s.add(c)
+                    s.add(z3.Not(goal))
+                    r = s.check()
+                    os.write(wfd, (json.dumps(dict(i=i, r=str(r), ms=int((time.time() - t1) * 1000))) + '\n').encode())
+                    if r != z3.unsat:
+                        break
+            finally:
+                os._exit(0)
+        os.close(wfd)
+        data = b''
+        deadline = t0 + len(todo) * timeout_ms / 1000.0 + 2.0
+        while True:
+            left = deadline - time.time()
+            if left <= 0:
+                break
+            rl, _, _ = select.select([rfd], [], [], left)
+            if not rl:
+                break
+            chunk = os.read(rfd, 1 << 16)
+            if not chunk:
+                break
+            data += chunk
+        os.close(rfd)
+        try:
+            os.kill(pid, signal.SIGKILL)
+        except ProcessLookupError:
+            pass
+        try:
+            os.waitpid(pid, 0)
+        except ChildProcessError:
+            pass
+        for line in data.decode().splitlines():
+            try:
+                d = json.loads(line)
+            except Exception:
+                continue
+            if d['r'] == 'unsat':
+                out[d['i']] = ('discharged', 'z3-' + z3.get_version_string(), d['ms'], None)
+    for i, goal, pc in todo:
+        if out[i] is None:
+            out[i] = solve(goal, pc, inputs=inputs, timeout_ms=timeout_ms)
+    return out
+
+
+def solve(goal, pc, extra=(), timeout_ms=None, inputs=None, fallback=True):
+    """returns (verdict, backend, ms, model as python values) ; verdict in discharged / failed / unknown.
+    z3 runs in a forked child that is killed at a hard wall-clock limit (its own timeout is not always honoured
+    while it unfolds recursive definitions); unknown goes to cvc5 and the older z3 binary."""
+    import select
+    import signal
     t0 = time.time()
+    timeout_ms = timeout_ms or Z3_MS
+    if isinstance(goal, bool):
+        goal = z3.BoolVal(goal)
+    g = z3.simplify(goal)
+    if z3.is_true(g):
+        return 'discharged', 'z3-simplify', 0, None
+    rfd, wfd = os.pipe()
+    pid = os.fork()
+    if pid == 0:
+        os.close(rfd)
+        _solve_child(goal, pc, extra, timeout_ms, inputs, wfd)
+    os.close(wfd)
+    data = b''
+    deadline = t0 + timeout_ms / 1000.0 + 2.0
+    while True:
+        left = deadline - time.time()
+        if left <= 0:
+            break
+        rl, _, _ = select.select([rfd], [], [], left)
+        if not rl:
+            break
+        chunk = os.read(rfd, 1 << 16)
+        if not chunk:
+            break
+        data += chunk
+    os.close(rfd)
+    try:
+        os.kill(pid, signal.SIGKILL)
+    except ProcessLookupError:
+        pass
+    try:
+        os.waitpid(pid, 0)
+    except ChildProcessError:
+        pass
+    ms = int((time.time() - t0) * 1000)
+    res = {}
+    if data:
+        try:
+            res = json.loads(data.decode())
+        except Exception:
+            res = {}
+    r = res.get('r')
+    zname = 'z3-' + z3.get_version_string()
+    if r == 'unsat':
+        return 'discharged', zname, ms, None
+    if r == 'sat':
+        return 'failed', zname, ms, res.get('model')
+    if not fallback:
+        return 'unknown', zname, ms, None
+    # fall back: cvc5, then the older z3 binary
     s = z3.Solver()
-    s.set('timeout', timeout_ms or Z3_MS)
     for c in pc:
         s.add(c)
     for c in extra:
         s.add(c)
     s.add(z3.Not(goal))
-    r = s.check()
-    ms = int((time.time() - t0) * 1000)
-    if r == z3.unsat:
-        return 'discharged', 'z3-' + z3.get_version_string(), ms, None
-    if r == z3.sat:
-        return 'failed', 'z3-' + z3.get_version_string(), ms, s.model()
-    # fall back: cvc5, then the older z3 binary
-    smt2 = s.to_smt2()
+    try:
+        smt2 = s.to_smt2()
+    except Exception:
+        return 'unknown', zname, ms, None
     for backend, cmd in (('cvc5-1.0.3', ['/usr/bin/cvc5', '--strings-exp', f'--tlimit={CVC5_S * 1000}', '--lang=smt2']),
                          ('z3-4.8.12', ['/usr/bin/z3', f'-T:{CVC5_S}', '-smt2', '-in'])):
         try:
@@ -91,8 +245,8 @@ def solve(goal, pc, extra=(), timeout_ms=None, want_model=None):
 
 def model_inputs(w, model, inputs):
     out = {}
-    if model is None:
-        return None
+    if model is None or isinstance(model, dict):
+        return model
     for k, c in inputs.items():
         try:
             out[k] = w.to_py(model.eval(c, model_completion=True))
@@ -102,8 +256,12 @@ def model_inputs(w, model, inputs):
 
 
 # ---------------------------------------------------------------------------- verifying one function
-def verify_contract(I: Interp, c: Contract, prop):
-    """symbolically executes the real body once per case and path; returns obligation records"""
+def verify_contract(I: Interp, c: Contract, prop, only_case=None, prefix=None, list_prefixes=None):
+    """symbolically executes the real body once per case and path; returns obligation records.
+    The postcondition of a path is formed at the end of that path (the objects built for it are still live).
+    only_case/prefix restrict the run to one case and to the paths under one decision prefix (work distribution);
+    list_prefixes=d returns [(case, prefix)] partitioning the paths instead of verifying."""
+    from .pyvc import PathDone, enumerate_prefixes
     f = I.find_function(c.rel, c.qualname)
     if f.env is None:
         env = c.closure_env(I, f)
@@ -112,83 +270,112 @@ def verify_contract(I: Interp, c: Contract, prop):
         f.env = env
     records = []
     npaths = 0
+    parts = []
     for case in c.cases(I):
+        if only_case is not None and case.name != only_case:
+            continue
         holder = {}
 
         def run(ctx, case=case):
-            args, kwargs, assumes, inputs = case.build(I)
-            holder['inputs'] = inputs
-            for a in assumes:
-                ctx.assume(a)
             I.target, I.target_contract = f, c
             try:
-                v = I.inline(f, list(args), dict(kwargs), f.node)
-                return 'return', (args, v)
-            except PyRaise as e:
-                return 'raise', (args, e)
+                args, kwargs, assumes, inputs = case.build(I)
+                holder['inputs'] = inputs
+                I.target_self = args[0].e if args and isinstance(args[0], Z) else None
+                for a in assumes:
+                    ctx.assume(a)
+                try:
+                    v = I.inline(f, list(args), dict(kwargs), f.node)
+                    goal = c.post(I, case, args, v)
+                    return 'return', dict(goal=goal, kind='post', line=0, detail=None)
+                except PyRaise as e:
+                    allowed = c.raises(I, case, args, e)
+                    goal = allowed if allowed is not None else z3.BoolVal(False)
+                    return 'raise', dict(goal=goal, kind='noraise' if allowed is None else 'raises', line=getattr(e.node, 'lineno', 0), detail=str(e))
+                except PathDone:
+                    return 'done', None
+                except CheckerError as e:
+                    return 'unsupported', str(e)
             finally:
                 I.target, I.target_contract = None, None
 
-        outcomes = explore(I, run)
-        if not outcomes:
-            records.append(dict(name=f'{prop}/{c.name}/vacuity[{case.name}]', kind='vacuity', verdict='failed', backend='pyvc', ms=0,
-                                detail='no feasible path: requires clause unsatisfiable', inputs=None))
+        if list_prefixes is not None:
+            parts.extend((case.name, p) for p in enumerate_prefixes(I, run, list_prefixes))
             continue
-        records.append(dict(name=f'{prop}/{c.name}/vacuity[{case.name}]', kind='vacuity', verdict='discharged', backend='pyvc', ms=0,
-                            detail=f'{len(outcomes)} feasible paths'))
+        outcomes = explore(I, run, prefix=prefix)
+        if not outcomes and prefix is None:
+            records.append(dict(name=f'{prop}/{c.name}/vacuity[{case.name}]', kind='vacuity', verdict='failed', backend='pyvc', ms=0,
+                                detail='no feasible path: requires clause unsatisfiable', inputs=None, case=case.name))
+            continue
+        if prefix is None:
+            records.append(dict(name=f'{prop}/{c.name}/vacuity[{case.name}]', kind='vacuity', verdict='discharged', backend='pyvc', ms=0,
+                                detail=f'{len(outcomes)} paths', case=case.name))
+        ptag = '' if prefix is None else 'p' + ''.join(str(d) for d in prefix) + '.'
         for pi, o in enumerate(outcomes):
             npaths += 1
             I.ctx = None
-            args, val = o['value']
-            tag = f'[{case.name}]#{pi}'
-            for ob in o['obligations']:
-                verdict, backend, ms, model = solve(ob['goal'], ob['pc'])
+            tag = f'[{case.name}]#{ptag}{pi}'
+            if o['kind'] == 'unsupported':
+                dead, _, _, _ = solve(z3.BoolVal(False), o['pc'], timeout_ms=5000, fallback=False)
+                if dead != 'discharged':
+                    records.append(dict(name=f'{prop}/{c.name}/path{tag}', kind='post', verdict='unknown', backend='pyvc', ms=0, inputs=None,
+                                        case=case.name, detail='path not analysable: ' + o['value']))
+                continue
+            items = [(ob['goal'], ob['pc']) for ob in o['obligations']]
+            val = o['value'] if o['kind'] != 'done' else None
+            if val is not None:
+                items.append((val['goal'], o['pc']))
+            res = solve_many(items, inputs=holder['inputs'])
+            for ob, (verdict, backend, ms, model) in zip(o['obligations'], res):
                 records.append(dict(name=f'{prop}/{c.name}/{ob["kind"]}@{ob["line"]}{tag}', kind=ob['kind'], verdict=verdict,
-                                    backend=backend, ms=ms, inputs=model_inputs(I.w, model, holder['inputs']), case=case.name,
-                                    detail=ob.get('extra')))
-            if o['kind'] == 'return':
-                goal = c.post(I, case, args, val)
-                line = 0
-                kind = 'post'
-                detail = None
-            else:
-                exc = val
-                allowed = c.raises(I, case, args, exc)
-                goal = allowed if allowed is not None else z3.BoolVal(False)
-                kind = 'noraise' if allowed is None else 'raises'
-                line = getattr(exc.node, 'lineno', 0)
-                detail = str(exc)
-            if isinstance(goal, bool):
-                goal = z3.BoolVal(goal)
-            verdict, backend, ms, model = solve(goal, o['pc'])
-            records.append(dict(name=f'{prop}/{c.name}/{kind}@{line}{tag}', kind=kind, verdict=verdict, backend=backend, ms=ms,
-                                inputs=model_inputs(I.w, model, holder['inputs']), case=case.name, detail=detail))
+                                    backend=backend, ms=ms, inputs=model, case=case.name, detail=ob.get('extra')))
+            if val is not None:
+                verdict, backend, ms, model = res[-1]
+                records.append(dict(name=f'{prop}/{c.name}/{val["kind"]}@{val["line"]}{tag}', kind=val['kind'], verdict=verdict, backend=backend, ms=ms,
+                                    inputs=model, case=case.name, detail=val['detail']))
+    if list_prefixes is not None:
+        return parts
     return records, npaths
 
 
 # ---------------------------------------------------------------------------- lemmas by structural induction
 class Lemma:
-    """P(c) for all categories c, by structural induction.  stmt(w, c, *params) -> z3 Bool.
-    params are universally quantified outer parameters (same in hypothesis and conclusion)."""
-    def __init__(self, name, stmt, params=(), hyps=None):
-        self.name, self.stmt, self.params, self.hyps = name, stmt, params, hyps
+    """P(c, params) for all categories c, by structural induction.  stmt(w, c, *params) -> z3 Bool.
+    ih(w, l, r, *params) -> (instances for l, instances for r): parameter tuples at which the hypothesis is used
+    (default: the same parameters).  uses: [(lemma, fn(w, c, *params) -> [argument tuples])] instances of earlier lemmas."""
+    def __init__(self, name, stmt, params=(), hyps=None, ih=None, uses=None):
+        self.name, self.stmt, self.params, self.hyps, self.ih, self.uses = name, stmt, params, hyps, ih, uses or []
 
-    def obligations(self, w):
+    def obligations(self, w, table=None):
         ps = [z3.Const(n, s) for n, s in self.params]
         b = z3.Const('b', z3.StringSort())
         f = z3.Const('f', w.Feat)
         l, r = z3.Const('l', w.Cat), z3.Const('r', w.Cat)
         s = z3.Const('s', z3.StringSort())
         side = self.hyps(w, *ps) if self.hyps else []
-        yield 'lemma-base', self.stmt(w, w.atom(b, f), *ps), side, dict(b=b, f=f, **{p.decl().name(): p for p in ps})
-        yield 'lemma-step', self.stmt(w, w.functor(l, s, r), *ps), side + [self.stmt(w, l, *ps), self.stmt(w, r, *ps)], \
-            dict(l=l, r=r, s=s, **{p.decl().name(): p for p in ps})
+
+        def used(c):
+            out = []
+            for lname, fn in self.uses:
+                for args in fn(w, c, *ps):
+                    out.append(table[lname].stmt(w, *args))
+            return out
+        inputs = {p.decl().name(): p for p in ps}
+        atom = w.atom(b, f)
+        yield 'lemma-base', self.stmt(w, atom, *ps), side + used(atom), dict(b=b, f=f, **inputs)
+        fun = w.functor(l, s, r)
+        if self.ih:
+            il, ir = self.ih(w, l, r, *ps)
+        else:
+            il, ir = [tuple(ps)], [tuple(ps)]
+        ihs = [self.stmt(w, l, *a) for a in il] + [self.stmt(w, r, *a) for a in ir]
+        yield 'lemma-step', self.stmt(w, fun, *ps), side + ihs + used(fun) + used(l) + used(r), dict(l=l, r=r, s=s, **inputs)
 
 
-def verify_lemma(w, lem, prop):
+def verify_lemma(w, lem, prop, table=None):
     recs = []
-    for kind, goal, hyps, inputs in lem.obligations(w):
-        verdict, backend, ms, model = solve(goal, hyps)
+    for kind, goal, hyps, inputs in lem.obligations(w, table):
+        verdict, backend, ms, model = solve(goal, hyps, inputs=inputs)
         recs.append(dict(name=f'{prop}/lemma::{lem.name}/{kind}', kind=kind, verdict=verdict, backend=backend, ms=ms,
                          inputs=model_inputs(w, model, inputs), detail=None))
     return recs
